@@ -82,6 +82,9 @@ pub fn run_case(ctx: &Ctx, case: &DropCase) -> CaseResult {
     let log = sc::verif::log_end();
     dropped?;
 
+    // Every deviation is collected; the one reported is the first that is not already listed as a
+    // known finding, so that a known deviation cannot hide a new one in the same log.
+    let mut fails: Vec<Failure> = Vec::new();
     let mut released = vec![0usize; maps.len()];
     let mut closes = 0usize;
     for c in &log {
@@ -89,41 +92,47 @@ pub fn run_case(ctx: &Ctx, case: &DropCase) -> CaseResult {
             let (addr, len) = (c.args[0], c.args[1]);
             if let Some(i) = maps.iter().position(|m| m.0 == addr) {
                 if len != maps[i].1 {
-                    return Err(Failure::new(format!("IoUring::drop|wrong-munmap-length|{}", names[i]), format!("{}: munmap({addr:#x}, {len:#x}) but the mapping created by setup_io_uring({}, {}) is {:#x} bytes long", names[i], cfg.entries, cfg.flag_name(), maps[i].1)));
+                    fails.push(Failure::new(format!("IoUring::drop|wrong-munmap-length|{}", names[i]), format!("{}: munmap({addr:#x}, {len:#x}) but the mapping created by setup_io_uring({}, {}) is {:#x} bytes long", names[i], cfg.entries, cfg.flag_name(), maps[i].1)));
+                    continue;
                 }
                 released[i] += 1;
                 if released[i] == 2 {
-                    return Err(Failure::new(
+                    fails.push(Failure::new(
                         format!("IoUring::drop|double-munmap|{}", names[i]),
                         format!("drop of the ring from setup_io_uring({}, {}) calls munmap({addr:#x}, {len:#x}) twice; set-up made {nmmap} mmap calls creating {} ranges {:x?}{}; the second munmap releases whatever has been mapped there since", cfg.entries, cfg.flag_name(), maps.len(), maps, if maps.len() == 2 { " (IORING_FEAT_SINGLE_MMAP: the completion ring shares the submission ring's mapping)" } else { "" }),
                     ));
                 }
             } else {
-                return Err(Failure::new("IoUring::drop|foreign-munmap|range not created by setup", format!("munmap({addr:#x}, {len:#x}) but set-up created {maps:x?}")));
+                fails.push(Failure::new("IoUring::drop|foreign-munmap|range not created by setup", format!("munmap({addr:#x}, {len:#x}) but set-up created {maps:x?}")));
             }
         } else if c.nr == NR_CLOSE {
             if c.args[0] as i32 != ring_fd {
-                return Err(Failure::new("IoUring::drop|foreign-close|descriptor not the ring", format!("close({}) but the ring descriptor is {ring_fd}", c.args[0] as i32)));
+                fails.push(Failure::new("IoUring::drop|foreign-close|descriptor not the ring", format!("close({}) but the ring descriptor is {ring_fd}", c.args[0] as i32)));
+                continue;
             }
             closes += 1;
             if closes == 2 {
-                return Err(Failure::new("IoUring::drop|double-close|ring descriptor", format!("close({ring_fd}) twice")));
+                fails.push(Failure::new("IoUring::drop|double-close|ring descriptor", format!("close({ring_fd}) twice")));
             }
         }
     }
     for (i, n) in released.iter().enumerate() {
         if *n == 0 {
+            fails.push(Failure::new(format!("IoUring::drop|mapping-not-released|{}", names[i]), format!("{} mapping {:#x}+{:#x} of setup_io_uring({}, {}) is not unmapped (with its length) by drop", names[i], maps[i].0, maps[i].1, cfg.entries, cfg.flag_name())));
             // release it ourselves so that the worker does not accumulate mappings
             unsafe {
                 libc::munmap(maps[i].0 as *mut libc::c_void, maps[i].1);
             }
-            return Err(Failure::new(format!("IoUring::drop|mapping-not-released|{}", names[i]), format!("{} mapping {:#x}+{:#x} of setup_io_uring({}, {}) is never unmapped by drop", names[i], maps[i].0, maps[i].1, cfg.entries, cfg.flag_name())));
         }
     }
     if closes == 0 {
         let still = sys::fd_is_open(ring_fd);
         sys::close_quiet(ring_fd);
-        return Err(Failure::new("IoUring::drop|ring-fd-not-closed|no close call", format!("drop never closes the ring descriptor {ring_fd} (still open afterwards: {still})")));
+        fails.push(Failure::new("IoUring::drop|ring-fd-not-closed|no close call", format!("drop never closes the ring descriptor {ring_fd} (still open afterwards: {still})")));
+    }
+    if !fails.is_empty() {
+        let pick = fails.iter().position(|f| !is_known(ctx, &f.sig)).unwrap_or(0);
+        return Err(fails.swap_remove(pick));
     }
     let mut rep = CaseReport::new();
     rep.nontrivial = true;
@@ -135,6 +144,52 @@ pub fn run_case(ctx: &Ctx, case: &DropCase) -> CaseResult {
     rep.class_if(cfg.sqpoll, "sqpoll");
     rep.class_if(cfg.entries != cfg.sq_entries(), "entries-not-power-of-two");
     Ok(rep)
+}
+
+fn is_known(ctx: &Ctx, sig: &str) -> bool {
+    ctx.known.iter().any(|k| sig == k.signature || (k.signature.ends_with('*') && sig.starts_with(&k.signature[..k.signature.len() - 1])))
+}
+
+/// Evaluate one enumerated case. An unknown failure is reduced to the simplest configuration
+/// that fails with the same signature before it is reported (the enumeration has no shrinker).
+fn run_and_report(ctx: &Ctx, case: &DropCase) -> bool {
+    let eval = |c: &DropCase| -> CaseResult {
+        match vh::runner::catch(|| run_case(ctx, c)) {
+            Ok(r) => r,
+            Err((loc, msg)) => Err(Failure::new(format!("drop|panic|{loc}"), msg)),
+        }
+    };
+    let first = eval(case);
+    let sig = match &first {
+        Err(f) if !is_known(ctx, &f.sig) => f.sig.clone(),
+        _ => return ctx.run_one("drop", case, move || first),
+    };
+    let mut best = case.clone();
+    loop {
+        let mut cands: Vec<DropCase> = Vec::new();
+        if best.used != 0 {
+            cands.push(DropCase { used: 0, ..best.clone() });
+        }
+        for e in [1u32, 2, 4, best.cfg.entries / 2, best.cfg.entries.saturating_sub(1)] {
+            if e >= 1 && e < best.cfg.entries {
+                cands.push(DropCase { cfg: RingCfg { entries: e, ..best.cfg }, used: best.used });
+            }
+        }
+        for k in 0..4 {
+            let mut c = best.cfg;
+            let f = [&mut c.clamp, &mut c.sqe128, &mut c.cqe32, &mut c.sqpoll];
+            if *f[k] {
+                *f[k] = false;
+                cands.push(DropCase { cfg: c, used: best.used });
+            }
+        }
+        let next = cands.into_iter().find(|c| matches!(eval(c), Err(f) if f.sig == sig));
+        match next {
+            Some(c) => best = c,
+            None => break,
+        }
+    }
+    ctx.run_one("drop", &best, || eval(&best))
 }
 
 pub fn run(ctx: &Ctx) {
@@ -159,7 +214,7 @@ pub fn run(ctx: &Ctx) {
                 }
                 total += 1;
                 let case = DropCase { cfg, used };
-                ok = ctx.run_one("drop", &case, || run_case(ctx, &case));
+                ok = run_and_report(ctx, &case);
                 if !ok {
                     break 'o;
                 }
